@@ -263,7 +263,30 @@ class C09(Prop):
                                            "what": "every field of FloatFacts (assumptions of rand64_deal_spec_abstract) sampled on IEEE binary64 incl. +-0, +-inf, NaN, subnormals, B=2^53"}}
 
     def corpus(self, ctx):
-        return [dict(c, sticky=1) for c in self._corpus() + self._roll64_pow2_corpus()]
+        return [dict(c, sticky=1) for c in self._corpus() + self._roll64_pow2_corpus() + self._roll32_pow2_corpus()]
+
+    def _roll32_pow2_corpus(self):
+        """esl_rnd_Roll(n) for every n = 2^k - 1, 2^k, 2^k + 1 (k = 1..30) and 2^31 - 1, at table positions 0 / 623 / 624 / 625 / deep, on the
+        Mersenne Twister and the LCG; and with the next raw word forced onto n*factor - 1, n*factor, factor - 1, factor, 2^32 - 1"""
+        ns = []
+        for k in range(1, 31):
+            ns += [(1 << k) - 1, 1 << k, (1 << k) + 1]
+        ns.append((1 << 31) - 1)
+        out = []
+        for new, seed, pos in (("new32", 1, 0), ("new32", 42, 623), ("new32", 42, 624), ("new32", 4294967295, 625), ("new32", 5489, 2000), ("newfast", 42, 3)):
+            ops = ["%s seed=%d" % (new, seed)] + (["u32 k=%d" % pos] if pos else []) + ["pos32"]
+            for n in ns: ops.append("roll n=%d" % n)
+            ops += ["pos32", "u32 k=2"]
+            out.append({"name": "roll32-pow2-%s-seed%d-pos%d" % (new, seed, pos), "ops": ops})
+        for which in range(5):
+            ops = ["new32 seed=7", "u32 k=%d" % (600 + 6 * which)]
+            for n in ns:
+                f = M32 // n
+                w = [n * f - 1, min(M32, n * f), f - 1, f, M32][which]
+                ops += ["pokeraw w=%d" % untemper(w), "roll n=%d" % n]
+            ops += ["pos32", "u32 k=2"]
+            out.append({"name": "roll32-pow2-boundary%d" % which, "ops": ops})
+        return out
 
     def _roll64_pow2_corpus(self):
         """esl_rand64_Roll(n) for EVERY power of two n = 2^k (k = 1..63) and n = 2^k - 1, 2^k + 1, at several stream positions
